@@ -30,10 +30,10 @@ func init() {
 		Body: func(x *vs.Exec, p explore.Params) {
 			proto, hist := p["proto"], p["hist"]
 			d := newDone(x)
-			x.Data["d"] = d
+			x.Put("d", d)
 			x.Hold()
 			lc := newLive(x, liveOpts{proto: proto})
-			x.Data["lc"] = lc
+			x.Put("lc", lc)
 			if _, err := lc.cl.Start(); err != nil {
 				x.Fail("ENGINE", "start: %v", err)
 				return
@@ -241,6 +241,6 @@ func failT(x *vs.Exec, f string, a ...any) {
 	if x.TimeDevs == 0 {
 		x.Fail("T", f, a...)
 	} else {
-		x.Data["session-disturbed"] = true
+		x.Put("session-disturbed", true)
 	}
 }
